@@ -1,11 +1,12 @@
 #![feature(allocator_api)]
 #![allow(unused)]
 use vstd::prelude::*;
+use vstd::std_specs::cmp::*;
+use core::cmp::Ordering as CmpOrdering;
 use std::sync::Arc;
 verus! {
 // ---- unit prelude (ASSUMED): opaque values for everything a builder merely stores ----
-#[derive(Clone, Copy, PartialEq, Eq, Structural)]
-pub struct Duration { pub nanos: u128 }
+//@include time.rs
 pub struct Name { pub id: Ghost<int> }
 /// any expression that wraps a user closure (Arc::new(f)): its value is irrelevant here — the claims are about the OTHER fields
 #[verifier::external_body] pub fn vx_wrap<T>() -> (r: T) { unimplemented!() }
@@ -72,9 +73,6 @@ impl ReconnectConfigBuilder {
 }
 
 // ===== retry (C05, C14) =====
-impl Duration {
-    pub fn from_millis(ms: u64) -> (r: Duration) ensures r.nanos == ms as u128 * 1_000_000 { Duration { nanos: ms as u128 * 1_000_000 } }
-}
 pub struct EventListeners { pub n: Ghost<nat> }
 impl EventListeners {
     #[verifier::external_body] pub fn new() -> (r: Self) ensures r.n@ == 0 { unimplemented!() }
@@ -114,6 +112,9 @@ impl RetryConfigBuilder {
     pub fn new() -> (r: Self)
         ensures r.max_attempts_source == MaxAttemptsSource::Fixed(3) && r.interval_fn is None && r.retry_predicate is None && r.budget is None && r.event_listeners.n@ == 0,   // #defaults_three_attempts_no_predicate_no_budget [C05]
     //@body RetryConfigBuilder::new file=rtconfig
+    pub fn default() -> (r: Self)
+        ensures r.max_attempts_source == MaxAttemptsSource::Fixed(3) && r.interval_fn is None && r.retry_predicate is None && r.budget is None && r.event_listeners.n@ == 0,   // #defaults_three_attempts_no_predicate_no_budget [C05]
+    //@body RetryConfigBuilder::default@Default file=rtconfig
     pub fn max_attempts(self, max_attempts: usize) -> (r: Self)
         ensures r.max_attempts_source == MaxAttemptsSource::Fixed(max_attempts),   // #sets_a_fixed_number_of_attempts [C05]
             r.interval_fn == self.interval_fn && r.retry_predicate == self.retry_predicate && r.event_listeners == self.event_listeners && r.name == self.name && r.budget == self.budget,   // #keeps_every_other_setting [C05]
